@@ -5,6 +5,7 @@ behaviour in the canonical text format of coq/theories/Show.v."""
 from __future__ import annotations
 
 import asyncio
+import logging
 import calendar
 import os
 import random
@@ -271,11 +272,39 @@ def enc_oracle(payload: str, now: int) -> str:
     )
 
 
+class _FormatAndDrop(logging.Handler):
+    """Formats every record (so the arguments of a log call are really rendered) and drops it."""
+
+    def emit(self, record):  # noqa: D102
+        try:
+            record.getMessage()
+        except Exception:  # noqa: BLE001  logging never lets a formatting error escape (logging.raiseExceptions aside)
+            pass
+
+
+_LOG_STATE = {"installed": False, "count": 0}
+
+
+def debug_logging(on: bool = True) -> None:
+    """The library's loggers at DEBUG (or back at WARNING): blocks guarded by
+    LOGGER.isEnabledFor(DEBUG) are code too, the runs execute them most of the time."""
+    for name in ("aiomysensors", "paho.mqtt.client"):
+        lg = logging.getLogger(name)
+        if not _LOG_STATE["installed"]:
+            lg.addHandler(_FormatAndDrop())
+            lg.propagate = False
+        lg.setLevel(logging.DEBUG if on else logging.WARNING)
+    _LOG_STATE["installed"] = True
+
+
 class Impl:
     """Drives the real Gateway and records, per operation, the op line for the
     model driver and the canonical rendering of what the implementation did."""
 
     def __init__(self, metric: bool = True, loop: asyncio.AbstractEventLoop | None = None):
+        # three gateways out of four run with debug logging on, the fourth with it off
+        _LOG_STATE["count"] += 1
+        debug_logging(_LOG_STATE["count"] % 4 != 0)
         self.loop = loop or asyncio.new_event_loop()
         self.tr = ScriptedTransport()
         self.gw = Gateway(self.tr, Config(metric=metric))
